@@ -2,7 +2,7 @@
 import itertools
 
 from ..common import rng
-from ..drivers import targeted
+from ..drivers import evo, targeted
 from ._twin import replay_programs, run_programs
 from ._util import replay_calls, run_calls
 
@@ -51,6 +51,10 @@ def check(run, tier):
     r = rng("C10")
     run_calls(run, cases(tier, r), nontrivial=lambda rec: rec["tip"]["k"] == "coll" and len(rec["tip"]["x"]) >= 2)
     progs = targeted.tip_programs("evo") + targeted.tip_programs("fluent")
+    # EVO script commands: mask = OR of the distinct tips, volume slot i belongs to tip i
+    progs += evo.targeted_programs()
+    for i in range(60 if q else 1500):
+        progs.append(evo.evo_program(r, f"C10/e{i}", r.randint(2, 6), kinds=["canonical", "permuted", "permuted", "duptip", "badtip"]))
     run_programs(run, progs)
     run.extra["exhaustive"] = not q
 
